@@ -14,8 +14,70 @@ def corpus_files(pid, group):
     return out
 
 
+def cover_wanted(spec, tier, shard, mode):
+    """contract statement coverage is measured on corpus replays and on the generated cases of the quick tier
+    (all shards) / of the first shard of the thorough tier (the VM hook costs time)"""
+    if spec.get("cover") is False or os.environ.get("VERIF_NO_COVER"):
+        return False
+    return mode == "replay" or tier == "quick" or shard.startswith("0/")
+
+
+def merge_cover(runs, spec):
+    """sum the per-run coverage files; returns (summary for the evidence, detail text)"""
+    pts = {}
+    for r in runs:
+        p = os.path.join(r["outdir"], "cover.json")
+        if not os.path.exists(p):
+            continue
+        try:
+            d = json.load(open(p))
+        except ValueError:
+            continue
+        for cname, lst in d.items():
+            for x in lst:
+                f = x["file"]
+                i = f.find("/contracts/")
+                if i < 0:
+                    i = f.find("/common/")
+                if i < 0:
+                    continue
+                key = (f[i + 1:], x["start"], x["end"], x["func"])
+                pts[key] = pts.get(key, 0) + x["hits"]
+    if not pts:
+        return None, None
+    try:  # machine-readable copy of everything measured (all files), for tools/coverage_union.py
+        os.makedirs(os.path.join(C.WORK, "cover"), exist_ok=True)
+        json.dump([[f, a, b, fn, h] for (f, a, b, fn), h in sorted(pts.items())],
+                  open(os.path.join(C.WORK, "cover", spec.get("_pid", "x") + ".json"), "w"))
+    except OSError:
+        pass
+    want = spec.get("cover_files")
+    files = {}
+    for (f, a, b, fn), h in pts.items():
+        if want and not any(w in f for w in want):
+            continue
+        st = files.setdefault(f, dict(statements=0, executed=0, unexecuted={}))
+        st["statements"] += 1
+        if h > 0:
+            st["executed"] += 1
+        else:
+            st["unexecuted"].setdefault(fn, []).append(a)
+    summary, detail = {}, []
+    for f in sorted(files):
+        st = files[f]
+        summary[f] = dict(statements=st["statements"], executed=st["executed"],
+                          functions_with_unexecuted_statements=sorted(st["unexecuted"]))
+        detail.append("%s: %d of %d statements executed" % (f, st["executed"], st["statements"]))
+        for fn in sorted(st["unexecuted"]):
+            detail.append("   %s: lines %s" % (fn, " ".join(str(x) for x in sorted(set(st["unexecuted"][fn])))))
+    return summary, "\n".join(detail) + "\n"
+
+
 def one_run(spec, hbin, outdir, seed, tier, mode="gen", ops=None, shard="0/1", extra_env=None):
     """harness + driver + diff for one shard; returns a dict"""
+    extra_env = dict(extra_env or {})
+    if cover_wanted(spec, tier, shard, mode):
+        extra_env["VERIF_COVER"] = os.path.join(outdir, "cover.json")
     rc, out = C.run_harness(hbin, outdir, seed, tier, mode=mode, ops=ops, shard=shard, extra_env=extra_env)
     res = dict(rc=rc, out=out, outdir=outdir, monitor=C.load_monitor(outdir), stats=C.load_stats(outdir),
                lines=0, diffs=[], branches={}, bad_cases=0, crashed=rc != 0)
@@ -220,6 +282,15 @@ def finish(pid, spec, tier, seed, t0, audit, runs, nviol, notes, extra):
         samples=samples or [{"theorems": (audit or {}).get("names", [])[:5]}],
         exhaustive=bool((spec.get("exhaustive") or {}).get(tier, False)),
     )
+    csum, cdetail = merge_cover(runs, dict(spec, _pid=pid))
+    if csum:
+        cov["contract_statement_coverage"] = csum
+        cov["contract_statement_coverage_note"] = ("sequence points (source statements) of the contracts compiled from the working tree that the corpus and "
+                                                   "generated operations of this run executed on the VM; per-line detail in reports/coverage/%s.txt" % pid)
+        if nviol == 0:
+            os.makedirs(os.path.join(C.VERIF, "reports", "coverage"), exist_ok=True)
+            open(os.path.join(C.VERIF, "reports", "coverage", pid + ".txt"), "w").write(
+                "# %s %s tier, seed %s: contract statements NOT executed by the correspondence run, by function\n%s" % (pid, tier, seed, cdetail))
     cov.update(extra)
     ev = dict(property_id=pid, tier=tier, seed=int(seed), level=spec.get("level", "proof"), coverage=cov,
               assumptions=spec.get("assumptions", []) + notes, wall_s=round(time.time() - t0, 2), violations=nviol)
